@@ -566,7 +566,12 @@ func (td *TestDir) requests(r *common.RNG, tier string) []request {
 		}
 	}
 	// unknown modules (also the parent / child paths the go command probes)
+	var pathList []string
 	for p := range paths {
+		pathList = append(pathList, p)
+	}
+	sort.Strings(pathList) // map order must not leak into the seeded choices below
+	for _, p := range pathList {
 		for _, q := range []string{p + "/sub", p + "x", parent(p), "unknown.example/" + p} {
 			if q != "" && !paths[q] && module.CheckPath(q) == nil && !strings.Contains(q, "_") {
 				if u, ok := listURL(q); ok {
@@ -787,6 +792,7 @@ func (rn *runner) evalDir(td *TestDir, seed uint64, only *request, report bool) 
 	srv.Close()
 	tSeq += time.Since(t1)
 
+	aliasSeen := false
 	for i, q := range reqs {
 		if !sendable(q.URL) {
 			if report {
@@ -806,7 +812,13 @@ func (rn *runner) evalDir(td *TestDir, seed uint64, only *request, report bool) 
 		if modelStarts && ob != seqAns[i] && impl[i].Err == "" {
 			fail("correspondence", "response:"+q.Class, q.URL, clip([]byte(seqAns[i])), clip([]byte(ob)), "model response (one server, same request order) and HTTP response differ")
 		}
-		if modelStarts && td.Clean && seqAns[i] != mans[2+i] {
+		if strings.Contains(q.URL, "_") {
+			// a request with "_" can alias a stored module (sub_x for sub/x) even in a clean
+			// directory and leave its prefix in the zip cache: from here on responses may
+			// legitimately depend on the history (C20_alias_history_dependent)
+			aliasSeen = true
+		}
+		if modelStarts && td.Clean && !aliasSeen && seqAns[i] != mans[2+i] {
 			fail("correspondence", "history-independent:"+q.Class, q.URL, clip([]byte(seqAns[i])), clip([]byte(mans[2+i])), "in a clean directory the model's response depends on earlier requests (Model = after the earlier requests, Impl = fresh server)")
 		}
 		if report && modelStarts && seqAns[i] != mans[2+i] {
@@ -833,6 +845,8 @@ func (rn *runner) evalDir(td *TestDir, seed uint64, only *request, report bool) 
 			if impl[i].Status != 404 {
 				fail("impl-violation", "not-stored-404/"+q.Class, q.URL, "", clip([]byte(ob)), "a request for something that is not stored is not answered with 404")
 			}
+		case strings.Contains(q.URL, "_"):
+			// outside the property (ambiguous naming); compared with the model above
 		default:
 			if msg := td.servedFromStore(q.URL, impl[i]); msg != "" {
 				fail("impl-violation", "served-from-store/"+q.Class, q.URL, "", clip([]byte(ob)), msg)
